@@ -94,6 +94,19 @@ func genCU(rng *rand.Rand, versioned bool, length int) (ops []cuOp) {
 	return ops
 }
 
+// cuIDSets are the profile IDs of a case: plain ones, IDs that differ only in
+// the case of their letters (profile IDs are case-sensitive), and IDs that are
+// prefixes of each other.
+var cuIDSets = [][3]string{
+	{"c0", "c1", "c2"},
+	{"ab12CD34", "AB12cd34", "ab12cd34"},
+	{"p1", "p10", "p100"},
+	{"c0", "c1", "c2"},
+	{"Zq7", "zq7", "zQ7"},
+}
+
+var cuIDs = cuIDSets[0]
+
 func customCampaign(o *hlib.Opts, r *hlib.Result, m *hlib.Model) {
 	rng := o.Rand("custom")
 	n := 250
@@ -103,6 +116,7 @@ func customCampaign(o *hlib.Opts, r *hlib.Result, m *hlib.Model) {
 	for i := 0; i < n; i++ {
 		versioned := i%3 != 0
 		capn := []int{1, 2, 100}[rng.IntN(3)]
+		cuIDs = cuIDSets[i%len(cuIDSets)]
 		ops := genCU(rng, versioned, 10+rng.IntN(50))
 		fail := runCU(r, m, versioned, capn, ops, true)
 		if fail != "" {
@@ -110,6 +124,7 @@ func customCampaign(o *hlib.Opts, r *hlib.Result, m *hlib.Model) {
 			runCU(r, m, versioned, capn, min, true)
 		}
 	}
+	cuIDs = cuIDSets[0]
 	if o.Thorough() {
 		exhaustiveCU(r, m)
 	}
@@ -186,7 +201,7 @@ func runCU(r *hlib.Result, m *hlib.Model, versioned bool, capn int, ops []cuOp, 
 		if op.old {
 			c = prev[op.prof]
 		}
-		id := fmt.Sprintf("c%d", op.prof)
+		id := cuIDs[op.prof]
 		conf := clientConf(c.toConf(id), nil, nil, false, false, false)
 		ra := a.filterReq(conf, newReq(op.host, dns.TypeA, false, profiles[0], "1.1.1.1"), false)
 		confB := clientConf(c.toConf(id), nil, nil, false, false, false)
@@ -209,7 +224,8 @@ func runCU(r *hlib.Result, m *hlib.Model, versioned bool, capn int, ops []cuOp, 
 			s = append(s, op.String())
 		}
 
-		return map[string]any{"campaign": "custom", "cache_count": capn, "update_time_strictly_increasing": versioned, "ops": s}
+		return map[string]any{"campaign": "custom", "cache_count": capn, "update_time_strictly_increasing": versioned,
+			"profile_ids": map[string]string{"c0": cuIDs[0], "c1": cuIDs[1], "c2": cuIDs[2]}, "ops": s}
 	}
 	for _, ob := range seen {
 		if ob.tok == "none" {
@@ -242,6 +258,7 @@ func runCU(r *hlib.Result, m *hlib.Model, versioned bool, capn int, ops []cuOp, 
 	}
 	if record {
 		r.Count(fmt.Sprintf("custom.versioned_%v", versioned))
+		r.Count("custom.ids_" + cuIDs[0])
 		r.Count(fmt.Sprintf("custom.cap_%d", capn))
 		r.Distribution["custom.answers_filtered"] += nFiltered
 		r.Distribution["custom.answers_none"] += nNone
@@ -268,6 +285,7 @@ type fullWorld struct {
 	svcs     map[string][]rule
 	svcVer   int
 	ssRules  []rule
+	ytRules  []rule // YouTube safe search; versioned together with ssRules
 	hpDoms   [2][]string
 	custom   [3]cuConf
 }
@@ -279,6 +297,7 @@ func (w *fullWorld) writeAll(s *store) {
 		s.writeList(id, rulesText(rs, w.listVer[id]))
 	}
 	s.writeList(string(filter.IDGeneralSafeSearch), rulesText(w.ssRules, w.listVer["ss"]))
+	s.writeList(string(filter.IDYoutubeSafeSearch), rulesText(w.ytRules, w.listVer["ss"]))
 	sv := map[string][]string{}
 	for id, rs := range w.svcs {
 		lines := []string{"||never.invalid^"}
@@ -311,7 +330,7 @@ func runFull(r *hlib.Result, rng *rand.Rand, caseNo, length int) {
 		w.hpA[k] = newHPFilter(id, rep, capn, w.hpDoms[k], nil)
 		defer w.hpA[k].close()
 	}
-	w.a = newStore(storeOpts{cached: true, cacheCnt: capn, customCnt: capn, ruleLists: []string{"rl1", "rl2"}, services: true, safe: true,
+	w.a = newStore(storeOpts{cached: true, cacheCnt: capn, customCnt: capn, ruleLists: []string{"rl1", "rl2"}, services: true, safe: true, yt: true,
 		adult: w.hpA[0].f, danger: w.hpA[1].f})
 	defer os.RemoveAll(w.a.dir)
 	// The twin storage has its own hash-prefix filters, registered with its
@@ -323,14 +342,14 @@ func runFull(r *hlib.Result, rng *rand.Rand, caseNo, length int) {
 		w.hpB[k] = newHPFilter(id, rep, capn, w.hpDoms[k], mgrB)
 		defer w.hpB[k].close()
 	}
-	w.b = newStore(storeOpts{cached: false, cacheCnt: capn, customCnt: capn, ruleLists: []string{"rl1", "rl2"}, services: true, safe: true,
+	w.b = newStore(storeOpts{cached: false, cacheCnt: capn, customCnt: capn, ruleLists: []string{"rl1", "rl2"}, services: true, safe: true, yt: true,
 		adult: w.hpB[0].f, danger: w.hpB[1].f, mgr: mgrB})
 	defer os.RemoveAll(w.b.dir)
 
 	kinds := []string{"B", "B", "A", "H", "T"}
 	w.lists["rl1"], w.lists["rl2"] = genRules(rng, kinds, false), genRules(rng, kinds, false)
 	w.svcs["svc1"], w.svcs["svc2"] = genRules(rng, []string{"B"}, false), genRules(rng, []string{"B", "A"}, false)
-	w.ssRules = genRules(rng, []string{"R"}, false)
+	w.ssRules, w.ytRules = genRules(rng, []string{"R"}, false), genRules(rng, []string{"R"}, false)
 	nextCV := 0
 	for i := range w.custom {
 		nextCV++
@@ -344,14 +363,20 @@ func runFull(r *hlib.Result, rng *rand.Rand, caseNo, length int) {
 	// Three requesters with different filter selections and message settings.
 	confFor := func(i int) *filter.ConfigClient {
 		c := w.custom[i].toConf(fmt.Sprintf("c%d", i))
+		// Both safe-search filters, only the YouTube one, only the general one.
+		var cc *filter.ConfigClient
 		switch i {
 		case 0:
-			return clientConf(c, []string{"rl1", "rl2"}, []string{"svc1"}, true, true, true)
+			cc = clientConf(c, []string{"rl1", "rl2"}, []string{"svc1"}, true, true, true)
+			cc.Parental.SafeSearchYouTubeEnabled = true
 		case 1:
-			return clientConf(c, []string{"rl2"}, []string{"svc1", "svc2"}, false, true, true)
+			cc = clientConf(c, []string{"rl2"}, []string{"svc1", "svc2"}, false, true, true)
+			cc.Parental.SafeSearchYouTubeEnabled = true
 		default:
-			return clientConf(c, []string{"rl1"}, nil, true, false, true)
+			cc = clientConf(c, []string{"rl1"}, nil, true, false, true)
 		}
+
+		return cc
 	}
 	var log []string
 	nFiltered, nNone, nRefresh := 0, 0, 0
@@ -368,7 +393,7 @@ func runFull(r *hlib.Result, rng *rand.Rand, caseNo, length int) {
 			}
 			if rng.IntN(2) == 0 {
 				w.listVer["ss"]++
-				w.ssRules = genRules(rng, []string{"R"}, false)
+				w.ssRules, w.ytRules = genRules(rng, []string{"R"}, false), genRules(rng, []string{"R"}, false)
 			}
 			if rng.IntN(2) == 0 {
 				w.svcVer++
@@ -417,6 +442,9 @@ func runFull(r *hlib.Result, rng *rand.Rand, caseNo, length int) {
 			} else {
 				nFiltered++
 				r.Count("full.answer_" + strings.SplitN(ca, " ", 2)[0])
+				if f := strings.Fields(ca); len(f) > 1 && strings.HasPrefix(f[1], "list=") {
+					r.Count("full." + f[1])
+				}
 			}
 			replay := map[string]any{"campaign": "full-storage", "case": caseNo, "cache_count": capn, "ops": append([]string{}, log...)}
 			if ca != cb {
